@@ -101,7 +101,16 @@ def record(sub, sc):
                 events.append({"k": k, "kind": kd, "op": e["op"], "path": (e["path"] or "")[-60:],
                                "names": st["namesFile"], "packs": st["packsDir"], "idx": st["idxDir"]})
                 if root == "r" or raw.has("t"):
-                    snaps.append((k, "%s %s" % (e["op"], (e["path"] or "")[-50:]), snapshot(raw, root) if raw.has(root) else None))
+                    snap = snapshot(raw, root) if raw.has(root) else None
+                    snaps.append((k, "%s %s" % (e["op"], (e["path"] or "")[-50:]), snap))
+                    # a non-atomic put can be interrupted half way: the torn file is a crash state too
+                    if snap is not None and e["op"].endswith("_non_atomic") and e["res"] == "ok" and e["path"] in snap["files"] \
+                            and "/lock/" not in e["path"]:
+                        data = snap["files"][e["path"]]
+                        for cut in sorted({0, len(data) // 2}):
+                            torn = {"dirs": snap["dirs"], "files": dict(snap["files"])}
+                            torn["files"][e["path"]] = data[:cut]
+                            snaps.append((k, "TORN(%d/%d) %s %s" % (cut, len(data), e["op"], e["path"][-40:]), torn))
         res = w.result("w1")
         if res is None or res[0] != "ok":
             sub.violation("operation-failed:%s:%s" % (kind, res[1] if res else "?"), "un-crashed %s failed: %s" % (kind, res), sc)
